@@ -113,6 +113,14 @@ def stepLine (d : DState) (n : Nat) (line : String) : IO (DState × List String)
       | .ok s => return ({ d with cur := some s }, hd :: "R ok" :: dumpLines d.mode s)
       | .throw e => return ({ d with cur := none }, [hd, s!"R throw {e}"])
       | .ub k => return ({ d with cur := none }, [hd, s!"R ub {k.toString}"])
+  | "specdecode" :: path :: opts =>
+    let bytes? ← (do let b ← IO.FS.readBinFile path; pure (some b)) <|> pure none
+    match bytes? with
+    | none => return (d, [hd, "R nofile"])
+    | some b =>
+      match Spec.decode b.toList (opts.contains "float") with
+      | none => return (d, [hd, "R undecodable"])
+      | some c => return (d, hd :: "R ok" :: specLines c (d.mode == .full))
   | ["mkframe", v, pts, subs] =>
     let f : Frame := { pts := (parsePts pts).getD [], subs := (parseSubs subs).getD [] }
     return (d.setVar v f, [hd])
